@@ -7,7 +7,9 @@ CONSTANT MaxDepth
 
 Fws == { FwCCTP(0, "MINT_A", "NONE"), FwCCTP(1, "MINT_B", "CALLER_A"), FwCCTP(2, "MINT_A", "NONE"),
          FwHYP("T1", 1, "R_A"), FwHYP("T1", 3, "R_A"), FwHYP("T2", 2, "R_B"),
-         FwINT("U"), FwINT("ORB"), FwINT("ORB_UPPER"), FwINT("DUST") }
+         FwINT("U"), FwINT("ORB"), FwINT("ORB_UPPER"), FwINT("DUST"),
+         \* a paying Hyperlane hook (interchain gas paymaster: 3 ustake, max fee 5 ustake) - see KnownDeviationIGP
+         [FwHYP("T1", 1, "R_A") EXCEPT !.hook = "H_IGP", !.gas = 3, !.maxfee = 5, !.mfd = "ustake"] }
 ActLists == { <<>>, <<FeeAct(<<Bps(100, "F1")>>)>>, <<FeeAct(<<Fix(3, "F1"), Bps(5000, "F2")>>)>>,
               <<FeeAct(<<Bps(100, "ORB")>>)>> }
 
@@ -29,8 +31,8 @@ Envs == { EnvIn("ftfPause", ""), EnvIn("ftfUnpause", ""), EnvIn("block", "F1"), 
 
 MCAlphabet == Transfers \cup BigTransfer \cup Others \cup NoOrbiterKey \cup Deposits \cup Admins \cup Envs \cup {ReimportIn}
 
-StepProps == [][ /\ Prop_C01(last') /\ Prop_C02(last') /\ Prop_C03(last') /\ Prop_C04(last') /\ Prop_C05(last')
-                 /\ Prop_C08(last') /\ Prop_C09(last') /\ Prop_C10(last') /\ Prop_C11(last') /\ Prop_C12(last')
+StepProps == [][ /\ Prop_C01(last') /\ MC_C02(last') /\ Prop_C03(last') /\ Prop_C04(last') /\ Prop_C05(last')
+                 /\ Prop_C08(last') /\ Prop_C09(last') /\ Prop_C10(last') /\ MC_C11(last') /\ Prop_C12(last')
                  /\ Prop_C17(last') /\ Prop_C18(last') ]_vars
 
 \* design invariants on states
